@@ -504,6 +504,30 @@ theorem all_precise_degenerate (g : List Rat) (hg : Props.C08.GridOK g) (out : L
     rw [ha, hb, hga.unique (hmap ▸ hgb)]
   · rw [List.getElem?_eq_none (by omega), List.getElem?_eq_none (by omega)]
 
+
+/-- ★ rank form (multiplicities counted): with the `N` lower ends sorted as `sl`, the left bound at a grid level `p` with
+`j/N < p ≤ (j+1)/N` is the `j`-th of them, i.e. the `⌈p·N⌉`-th smallest lower end; likewise the right bound and the
+upper ends.  This is the statement the harness oracle checks on the real Staircase at all 200 levels. -/
+theorem stackOut_rank (g : List Rat) (hg : Props.C08.GridOK g) (out : List Val) (hok : FocalOK out) (P : Dss.PB)
+    (hP : stackOut g out = .ok P) (sl sh : List Rat) (hsl : sl.Perm (out.map Val.lo)) (hsh : sh.Perm (out.map Val.hi))
+    (hsl' : sl.Pairwise (· ≤ ·)) (hsh' : sh.Pairwise (· ≤ ·))
+    (i j : Nat) (p : Rat) (hp : g[i]? = some p) (h1 : (j : Rat) / out.length < p) (h2 : p ≤ ((j : Rat) + 1) / out.length) :
+    (∀ a, sl[j]? = some a → P.left[i]? = some a) ∧ (∀ b, sh[j]? = some b → P.right[i]? = some b) := by
+  obtain ⟨P', hP', _, _, hs⟩ := stackOut_geninv g hg out hok
+  rw [hP] at hP'; cases hP'
+  obtain ⟨a', b', ha', hb', hga, hgb⟩ := hs i p hp
+  have hlenl : sl.length = out.length := by rw [hsl.length_eq]; simp
+  have hlenh : sh.length = out.length := by rw [hsh.length_eq]; simp
+  constructor
+  · intro a ha
+    have := Props.C08.sorted_geninv sl out.length hlenl hsl' j a p ha h1 h2
+    rw [← hlenl, massLE_equal, ecdf_perm hsl] at this
+    rw [ha', hga.unique this]
+  · intro b hb
+    have := Props.C08.sorted_geninv sh out.length hlenh hsh' j b p hb h1 h2
+    rw [← hlenh, massLE_equal, ecdf_perm hsh] at this
+    rw [hb', hgb.unique this]
+
 /-! ## end to end: the p-box returned by `slicing` / `interval_monte_carlo` -/
 
 theorem allLE_map_of (out : List Val) (h : Dss.allLE (out.map Val.lo) (out.map Val.hi) = true) : ∀ v ∈ out, v.lo ≤ v.hi := by
